@@ -823,6 +823,75 @@ PROPS["C04"] = dict(
                "(printed text reads back as the same double) is a named hypothesis (C07/C08); finiteness of parsed floats is proved.",
 )
 
+PROPS["C07"] = dict(
+    lean_targets=["SJ.Props.C07", "SJ.Audit.C07"],
+    configs=dict(quick=["fr"], thorough=["fr", "frap", "d"]),
+    gen_keys=["lexical.", "Lexical"],
+    rule="number literals of the property's quantifier, each into f64 (from_str, from_slice, a two-element array through a chunked "
+         "reader, Value::as_f64) and into f32 (str, slice, reader): f64 values sampled across every binary exponent (shortest {:e}, "
+         "shortest {}, 17 significant digits; thorough also 15 and 20), every power of two and its neighbours, every power of ten "
+         "10^-345..10^310 in several spellings and its neighbours, exact decimal expansions (big-integer arithmetic in the harness) of "
+         "midpoints between adjacent doubles and between adjacent f32 values (up to ~770 digits; both ends of the range always), each "
+         "also perturbed by +-1 in the last digit, extended by zeros and by zeros followed by a final 1 (beyond the 768-digit limit), cut "
+         "at 767/768/769 digits, in five spellings (scientific, positional, integer E, 0.ddd e, split); subnormal/overflow boundaries and "
+         "a fixed list of special spellings (exponents beyond i32, leading zeros of the exponent, u64-overflow frontiers of the integer "
+         "and fraction digit loops); random 1-40 digit mantissas with exponents in +-400; spellings that steer into lexical's fast, "
+         "moderate (extended-precision) and big-integer paths; print -> parse of f64/f32 sampled across every exponent (f64pr/f32pr). "
+         "Thorough: all 2^32 f32 bit patterns print -> parse inside the harness (f32all), also in the default build. "
+         "Non-trivial = literal longer than one byte; distinct = distinct lines.",
+    trusted_base=[
+        "Lean 4.33 kernel; axioms propext, Classical.choice, Quot.sound only (checked by #print axioms on every listed theorem)",
+        "tools/extract.py gen_lexical (regex translator: cached powers, small/large power tables, per-type float constants, and the "
+        "shapes of the error/rounding expressions) and the Rust harness + sjdriver correspondence run (differential testing, bit for bit)",
+        "hand-written transcription of src/lexical/* and of the float_roundtrip integration of de.rs (Model.Lexical), tied to the crate "
+        "by the correspondence run; limb-level big-integer arithmetic of lexical/math.rs abstracted by Nat",
+        "IEEE-754 conformance of the hardware multiply/divide/int-to-float cast used by lexical's fast path; rustc's conversion of the "
+        "float literals 1.0..1e22; serde's f32/f64 visitors (`as` casts)",
+    ],
+    assumptions=["ryu prints the shortest text that round-trips (hypothesis RyuShortest of c07_roundtrip); exercised by f64pr/f32pr on "
+                 "every exponent and, for f32, exhaustively by f32all in the thorough tier",
+                 "literals with more than 2^31 digits (exponent arithmetic of exponent.rs saturates) are outside the statement"],
+    partial=[
+        "c07_correct_partial (f64 targets): deFloatRoundtrip = convertRoundtrip is proved from two explicit hypotheses: "
+        "ModOk false p = the missing lemma moderate_path_sound for the one call de.rs makes on p (if error_is_accurate accepts "
+        "the 80-bit product of the mantissa and the cached power, rounding it equals rounding the exact value; if it rejects, "
+        "the exact value lies in the neighbourhood of the downward-rounded product) - false on the pinned tree for the literals "
+        "of open finding C07-moderate-truncated, carried by the exact-oracle sweep otherwise; and NoZeroTail false p = not the "
+        "shape of open finding C07-zero-tail",
+        "f32 targets: every layer (c07_split, c07_fast_path_exact, c07_into_float_rne, c07_bhcomp_exact, parse_concise/"
+        "parse_truncated = roundDec b32) is proved for both formats, but the final identification with convertRoundtripSingle "
+        "(the f32 analogue of conv64_eq, parked in docs/C07-parked-f32.lean.txt) and hence c07_correct_partial for f32 are not "
+        "assembled yet; the f32 clause is carried by the correspondence run (all families) and, for print->parse, by the "
+        "exhaustive 2^32 sweep",
+        "c07_roundtrip (print then parse is the identity on finite floats under RyuShortest) is a corollary of "
+        "c07_correct_partial not yet stated; ryu's output is checked against the specification on every sampled exponent "
+        "(f64pr/f32pr) and exhaustively for f32",
+        "the 'every finite f32 survives in every configuration' clause is a finite enumeration in the harness (f32all, 2^32 "
+        "patterns in fr, fr+ap and default builds), not a theorem",
+    ],
+    technique="Lean 4: extracted lexical tables proved against exact powers by kernel evaluation; transcription of lexical and its de.rs "
+              "integration run bit for bit against the crate; independent exact-rational round-to-nearest-even oracle evaluated on the "
+              "crate's output for constructed hard cases (exact midpoints, 768-digit limit, path frontiers)",
+    level_text="Machine-checked (Lean 4, no axioms beyond the three standard ones): c07_split (for every well-formed literal the leaf "
+               "of de.rs's digit collection and its arguments - significand/exponent, or scratch buffer split at integer_end, zero "
+               "padding, exponent sign - denote exactly the literal's digits and decimal exponent); c07_cached_power_accuracy (the 10 "
+               "small cached powers are exact, the 66 large ones are the truncated normalised 64-bit images of 10^k) and "
+               "c07_power_tables; c07_fast_path_exact (f64 and f32: the fast path returns the correctly rounded value); "
+               "c07_into_float_rne (into_float = IEEE round-to-nearest-even of the extended value, into_downward_float = round toward "
+               "zero, all 64-bit mantissas, subnormals, carry, overflow); c07_bhcomp_exact (the big-integer path with Bigint as Nat "
+               "returns the correctly rounded value, including the MAX_DIGITS truncation argument 2^54*5^1075 < 10^768); "
+               "c07_correct_partial (f64: de.rs + lexical = convertRoundtrip, i.e. nearest-even of the exact value, sign incl. -0.0, "
+               "underflow to +-0, out of range iff the rounding is infinite, exponent-overflow rule - under the explicit per-call "
+               "hypothesis moderate_path_sound and the exclusion of an open finding). The transcription is run bit for bit against "
+               "the crate, and the independent exact-rational oracle is evaluated on the crate's output, on 81k (quick) / 1.4M "
+               "(thorough) constructed literals incl. exact midpoints up to 770 digits and all 2^32 f32 patterns print->parse.",
+    level_note="Trusted: Lean kernel + 3 standard axioms; extract.py; harness/driver; Model.Lexical transcription validated bit for bit; "
+               "math.rs limb arithmetic abstracted by Nat. PARTIAL: moderate_path_sound is an explicit hypothesis of c07_correct_partial "
+               "(it is false on the pinned tree: finding C07-moderate-truncated was found while stating it); f32 top-level assembly "
+               "and c07_roundtrip not yet stated. Three open findings of the pinned tree (known_findings.json: C07-zero-tail, "
+               "C07-f32-negint, C07-moderate-truncated) with validated repairs in docs/C07-fix-*.diff.",
+)
+
 # properties not claimed yet (kept current as checks are added)
 NOT_APPLICABLE = [
     dict(property_id=f"C{i:02d}", reason="check under construction in this build phase; not yet claimed (see DESIGN.md §11 build order)")
